@@ -516,11 +516,21 @@ pub fn f10_subpat(rng: &mut Rng, name: &str) -> Def {
                 format!("(?&{r})-(?&{r2})")
             }
         };
-        def.push(Pat::regex(&text, 0));
+        // the referencing pattern itself may be a byte-string literal (Unicode mode off around the reference): the
+        // subpattern keeps its own mode
+        if rng.chance(1, 5) && text.is_ascii() && !text.contains("(?x") {
+            def.push(Pat::new(PatKind::Regex, Lit::b(text.as_bytes()), 0));
+        } else {
+            def.push(Pat::regex(&text, 0));
+        }
     }
     if rng.chance(1, 3) {
         let r = rng.pick(&names).clone();
-        def.push(Pat::skip(&format!(" (?&{r})?")));
+        if rng.chance(1, 4) {
+            def.push(Pat::new(PatKind::Skip, Lit::b(format!(" (?&{r})?").as_bytes()), 0));
+        } else {
+            def.push(Pat::skip(&format!(" (?&{r})?")));
+        }
     }
     if rng.chance(1, 14) {
         // an unbounded greedy dot hidden in a subpattern, referenced from a pattern that spells no repetition itself:
